@@ -66,7 +66,66 @@ def fl(v):
 
 
 def show(v):
-    return "nan" if v is None else (str(v.numerator) if v.denominator == 1 else "%d/%d" % (v.numerator, v.denominator))
+    if v is None:
+        return "nan"
+    if v.denominator > 64 or abs(v.numerator) > 10 ** 6:
+        return repr(float(v))  # affinely transformed grid values (exact binary floats)
+    return str(v.numerator) if v.denominator == 1 else "%d/%d" % (v.numerator, v.denominator)
+
+
+class Affine:
+    """v -> o + h*v on the grid, with o and h chosen so that every transformed grid value (and k/8 follow-up point) is
+    EXACTLY representable as a binary float: the transformed data are then exactly an affine image of the unit-scale
+    data, the exact reference applies unchanged to the recorded (transformed) knots, and B-spline / cardinal spline
+    bases are affine invariant, basis(o + h x; o + h knots) == basis(x; knots), which is checked as well."""
+
+    def __init__(self, o, h):
+        self.o, self.h = F(o), F(h)
+        self.identity = (self.o, self.h) == (0, 1)
+        self.tag = "" if self.identity else "affine=%r+%r*g :: " % (float(o), float(h))
+
+    def f(self, v):
+        if v is None or self.identity:
+            return v
+        r = self.o + self.h * v
+        if F(float(self.o) + float(self.h) * float(v)) != r or F(float(r)) != r:
+            raise AssertionError("affine grid value not exactly representable: %r" % ((self.o, self.h, v),))
+        return r
+
+    def inv(self, v):
+        return v if (v is None or self.identity) else (F(v) - self.o) / self.h
+
+    def grid(self, g):
+        k = (id(g), self.o, self.h)
+        if k not in _GRIDS:
+            _GRIDS[k] = [self.f(v) for v in g]
+        return _GRIDS[k]
+
+
+_GRIDS = {}
+IDENT = Affine(0, 1)
+AFFINE_PAIRS = [(0, F(1, 2 ** 30)), (0, F(1, 2 ** 10)), (0, 2 ** 10), (0, 2 ** 30), (1000, F(1, 2 ** 10)),
+                (10 ** 6, F(1, 2 ** 20)), (16 * 10 ** 8, F(1, 2 ** 10)), (-(10 ** 6), F(1, 2 ** 10))]
+
+
+def same_float(a, b):
+    return float(a) == float(b)
+
+
+def close_knot(a, b, spread):
+    """a computed (quantile) knot against its exact value: 1e-9 of the spread of the data plus a few ulps of the value"""
+    a, b = float(a), float(b)
+    return abs(a - b) <= TOL * float(spread) + 8 * 2.2e-16 * max(abs(a), abs(b))
+
+
+def mats_close(A, B, tol=TOL):
+    if A.shape != B.shape:
+        return False
+    na, nb = np.isnan(A), np.isnan(B)
+    if not np.array_equal(na, nb):
+        return False
+    with np.errstate(invalid="ignore"):
+        return bool(np.all(na | (np.abs(A - B) <= tol * np.maximum(1.0, np.abs(B)))))
 
 
 def showx(x):
@@ -345,14 +404,15 @@ def drv_bs(c, ctx, col):
     degree = c.pick(ctx["degrees"])
     extrap = c.pick(EXTRAP)
     icpt = c.flag()
+    aff = Affine(*c.pick(ctx["affine"])) if ctx.get("affine") else IDENT
     bmode, max_len, *opt = c.pick(ctx["bounds"])  # "default" | ("both", lo, hi) | ("lower", lo) | ("upper", hi)
-    symbols = SYM_DEFAULT if bmode == "default" else SYM_OOR
+    symbols = aff.grid(SYM_DEFAULT if bmode == "default" else SYM_OOR)
     x = choose_multiset(c, symbols, max_len)
     vals = [v for v in x if v is not None]
     if not vals:
         raise Skip()
-    lb = F(bmode[1]) if bmode != "default" and bmode[0] in ("both", "lower") else min(vals)
-    ub = F(bmode[-1]) if bmode != "default" and bmode[0] in ("both", "upper") else max(vals)
+    lb = aff.f(F(bmode[1])) if bmode != "default" and bmode[0] in ("both", "lower") else min(vals)
+    ub = aff.f(F(bmode[-1])) if bmode != "default" and bmode[0] in ("both", "upper") else max(vals)
     inr = sorted(v for v in vals if lb <= v <= ub)
     if len(set(inr)) < 2:
         raise Skip()
@@ -362,12 +422,12 @@ def drv_bs(c, ctx, col):
     kwargs = {"degree": degree, "include_intercept": icpt, "extrapolation": extrap}
     if bmode != "default":
         if bmode[0] in ("both", "lower"):
-            kwargs["lower_bound"] = int(lb) if lb.denominator == 1 else float(lb)
+            kwargs["lower_bound"] = int(lb) if (lb.denominator == 1 and aff.identity) else float(lb)
         if bmode[0] in ("both", "upper"):
-            kwargs["upper_bound"] = int(ub) if ub.denominator == 1 else float(ub)
+            kwargs["upper_bound"] = int(ub) if (ub.denominator == 1 and aff.identity) else float(ub)
     df = None
     if ctx["mode"] == "knots":
-        inner = c.pick(knot_choices([g for g in G if lb < g < ub], True))
+        inner = c.pick(knot_choices([g for g in aff.grid(G) if lb < g < ub], True))
         if inner:
             kwargs["knots"] = [float(k) for k in inner]
         spec = "knots=%s" % showx(inner)
@@ -377,7 +437,7 @@ def drv_bs(c, ctx, col):
         kwargs["df"] = df
         spec = "df=%d" % df
         nknots = df - degree - (1 if icpt else 0)
-    key = "bs :: x=%s degree=%d %s intercept=%s bounds=%s extrapolation=%s" % (
+    key = aff.tag + "bs :: x=%s degree=%d %s intercept=%s bounds=%s extrapolation=%s" % (
         showx(x), degree, spec, icpt, "default" if bmode == "default" else "/".join(str(b) for b in bmode), extrap)
     kw_src = ", ".join("%s=%r" % kv for kv in kwargs.items())
     detail = {"x": [fl(v) for v in x], "kwargs": dict(kwargs),
@@ -414,14 +474,14 @@ def drv_bs(c, ctx, col):
     if set(state) != {"lower_bound", "upper_bound", "knots"}:
         col.violation(key + " :: state keys", dict(detail, state=repr(state)), sig="bs-state-keys")
         return
-    if not (close(state["lower_bound"], lb) and close(state["upper_bound"], ub)):
+    if not (same_float(state["lower_bound"], lb) and same_float(state["upper_bound"], ub)):
         col.violation(key + " :: state bounds", dict(detail, state=repr(state), want=[float(lb), float(ub)]),
                       sig="bs-state-bounds")
         return
     rec = [R.frac(k) for k in state["knots"]]
     nrec = len(rec) - 2 * (degree + 1)
     ok_pad = (nrec >= 0 and all(k == rec[0] for k in rec[:degree + 1]) and all(k == rec[-1] for k in rec[-degree - 1:])
-              and close(rec[0], lb) and close(rec[-1], ub))
+              and rec[0] == lb and rec[-1] == ub)
     if not ok_pad or nrec != nknots:
         col.violation(key + " :: state knots", dict(detail, recorded=state["knots"], want_interior=nknots,
                                                     want="bounds repeated degree+1 times around the interior knots"),
@@ -438,7 +498,7 @@ def drv_bs(c, ctx, col):
         if oor:  # docstrings do not say whether out-of-range training values take part in the quantiles
             cands.append(R.quantiles7(vals, nknots))
             col.count("unspecified:df-sample-with-out-of-range-training-values")
-        if not any(all(close(a, b) for a, b in zip(rec_inner, cand)) for cand in cands):
+        if not any(all(close_knot(a, b, ub - lb) for a, b in zip(rec_inner, cand)) for cand in cands):
             col.violation(key + " :: state knots", dict(detail, recorded=state["knots"],
                                                         want_interior=[float(a) for a in cands[0]]), sig="bs-df-knots")
             return
@@ -459,10 +519,32 @@ def drv_bs(c, ctx, col):
     # ---- values on the training vector -------------------------------------
     emit(col, key, detail, bs_rows_findings(M, x, t, degree, extrap, icpt, "train"))
 
+    # ---- affine invariance (reference-free): the same call on the unit-scale pre-image gives the same matrix --------
+    if not aff.identity:
+        ku = dict(kwargs)
+        for k_ in ("lower_bound", "upper_bound"):
+            if k_ in ku:
+                ku[k_] = float(aff.inv(F(ku[k_])))
+        if "knots" in ku:
+            ku["knots"] = [float(aff.inv(F(k_))) for k_ in ku["knots"]]
+        xu = [aff.inv(v) for v in x]
+        su = {}
+        ou = call(BS, xu, su, ku)
+        if ou[0] == "OK" and [aff.inv(k_) for k_ in rec] != [R.frac(k_) for k_ in su.get("knots", [])]:
+            # quantile knots are computed in floating point: at a large offset their rounding error, divided by the small
+            # scale, is a visible perturbation of the knot; the exact reference on the RECORDED knots (above) is the
+            # oracle there, the reference-free comparison is only made when the recorded knots correspond exactly
+            col.count("affine-invariance-not-compared(recorded knots differ by rounding)")
+        elif ou[0] != "OK" or list(ou[1]) != list(keys) or not mats_close(M, ou[2]):
+            col.violation(key + " :: affine invariance", dict(detail, unit_x=[fl(v) for v in xu], unit_kwargs=ku,
+                                                             got=M.tolist(), unit_result=ou[2].tolist() if ou[0] == "OK" else ou[1]),
+                          sig="bs-affine-invariance")
+
     # ---- re-use of the state on follow-up vectors ---------------------------
-    vkey = ("bs", state_digest(state), kw_src, len(ctx["followup"]))
+    fgrid = aff.grid(ctx["followup"])
+    vkey = ("bs", state_digest(state), kw_src, len(fgrid))
     if vkey not in _FOLLOW:
-        _FOLLOW[vkey] = bs_followups(state, kwargs, kw_src, t, degree, extrap, icpt, want_keys, ctx["followup"])
+        _FOLLOW[vkey] = bs_followups(state, kwargs, kw_src, t, degree, extrap, icpt, want_keys, fgrid)
     else:
         col.count("bs-followup-result-shared-with-identical-state")
     emit(col, key, detail, _FOLLOW[vkey])
@@ -576,15 +658,16 @@ def drv_cubic(c, ctx, col):
     kind = c.pick(ctx["kinds"])
     cons = c.pick(ctx["constraints"])
     extrap = c.pick(EXTRAP)
+    aff = Affine(*c.pick(ctx["affine"])) if ctx.get("affine") else IDENT
     bmode, max_len, *opt = c.pick(ctx["bounds"])
     cyclic = kind == "cc"
-    symbols = SYM_DEFAULT if bmode == "default" else SYM_OOR
+    symbols = aff.grid(SYM_DEFAULT if bmode == "default" else SYM_OOR)
     x = choose_multiset(c, symbols, max_len)
     vals = [v for v in x if v is not None]
     if not vals:
         raise Skip()
-    lb = F(bmode[1]) if bmode != "default" else min(vals)
-    ub = F(bmode[2]) if bmode != "default" else max(vals)
+    lb = aff.f(F(bmode[1])) if bmode != "default" else min(vals)
+    ub = aff.f(F(bmode[2])) if bmode != "default" else max(vals)
     inr = sorted(v for v in vals if lb <= v <= ub)
     if len(set(inr)) < 2:
         raise Skip()
@@ -598,7 +681,7 @@ def drv_cubic(c, ctx, col):
     if bmode != "default":
         kwargs["lower_bound"], kwargs["upper_bound"] = float(lb), float(ub)
     ncons = 1 if cons else 0
-    specs = [("df", d) for d in ctx["dfs"]] + [("knots", k) for k in knot_choices([g for g in G if lb < g < ub], False)]
+    specs = [("df", d) for d in ctx["dfs"]] + [("knots", k) for k in knot_choices([g for g in aff.grid(G) if lb < g < ub], False)]
     what, val = c.pick(specs)
     if what == "df":
         kwargs["df"] = val
@@ -608,7 +691,7 @@ def drv_cubic(c, ctx, col):
         kwargs["knots"] = [float(k) for k in val]
         n_inner = len(val)
         spec = "knots=%s" % showx(val)
-    key = "%s :: x=%s %s constraints=%s bounds=%s extrapolation=%s" % (
+    key = aff.tag + "%s :: x=%s %s constraints=%s bounds=%s extrapolation=%s" % (
         kind, showx(x), spec, cons, "default" if bmode == "default" else "%s/%s" % (bmode[1], bmode[2]), extrap)
     kw_src = ", ".join("%s=%r" % kv for kv in kwargs.items())
     fname = {"cr": "natural_cubic_spline", "cs": "natural_cubic_spline", "cc": "cyclic_cubic_spline"}[kind]
@@ -648,7 +731,7 @@ def drv_cubic(c, ctx, col):
     if set(state) != {"lower_bound", "upper_bound", "knots", "constraints", "cyclic"} or state["cyclic"] is not cyclic:
         col.violation(key + " :: state keys", dict(detail, state=repr(state)), sig="cubic-state-keys")
         return
-    if not (close(state["lower_bound"], lb) and close(state["upper_bound"], ub)):
+    if not (same_float(state["lower_bound"], lb) and same_float(state["upper_bound"], ub)):
         col.violation(key + " :: state bounds", dict(detail, state=repr(state)), sig="cubic-state-bounds")
         return
     rec = [R.frac(k) for k in state["knots"]]
@@ -658,7 +741,7 @@ def drv_cubic(c, ctx, col):
         # "equally spaced quantiles of the input data falling between the bounds": of the distinct values (mgcv/patsy)
         # or of the raw values - the docstrings do not say; out-of-range training values as for bs
         cands = [[lb] + R.quantiles7(sorted(set(inr)), n_inner) + [ub], [lb] + R.quantiles7(inr, n_inner) + [ub]]
-    if len(rec) != n_inner + 2 or not any(all(close(a, b) for a, b in zip(rec, cand)) for cand in cands):
+    if len(rec) != n_inner + 2 or not any(all(close_knot(a, b, ub - lb) for a, b in zip(rec, cand)) for cand in cands):
         col.violation(key + " :: state knots", dict(detail, recorded=state["knots"], want=[float(a) for a in cands[0]]),
                       sig="cubic-state-knots")
         return
@@ -696,7 +779,7 @@ def drv_cubic(c, ctx, col):
     if not cons and state["constraints"] is not None:
         col.violation(key + " :: state constraints", dict(detail, state=repr(state)), sig="cubic-state-keys")
         return
-    grid = ctx["followup_df"] if what == "df" else ctx["followup"]
+    grid = aff.grid(ctx["followup_df"] if what == "df" else ctx["followup"])
     vkey = (kind, state_digest(state), kw_src, len(grid))
     if vkey not in _FOLLOW:
         lbf, ubf = float(t[0]), float(t[-1])
@@ -744,6 +827,25 @@ def drv_cubic(c, ctx, col):
 
     # ---- values on the training vector -------------------------------------
     emit(col, key, detail, cubic_rows_findings(M, x, t, cyclic, extrap, Q, "train", small))
+
+    # ---- affine invariance (reference-free; unconstrained basis only: the absorbed constraint is fixed only up to
+    # the orientation chosen by the QR factorisation) ----------------------------------------------------------------
+    if not aff.identity and not cons:
+        ku = dict(kwargs)
+        for k_ in ("lower_bound", "upper_bound"):
+            if k_ in ku:
+                ku[k_] = float(aff.inv(F(ku[k_])))
+        if "knots" in ku:
+            ku["knots"] = [float(aff.inv(F(k_))) for k_ in ku["knots"]]
+        xu = [aff.inv(v) for v in x]
+        su = {}
+        ou = call(fn, xu, su, ku)
+        if ou[0] == "OK" and [aff.inv(k_) for k_ in rec] != [R.frac(k_) for k_ in su.get("knots", [])]:
+            col.count("affine-invariance-not-compared(recorded knots differ by rounding)")
+        elif ou[0] != "OK" or list(ou[1]) != list(keys) or not mats_close(M, ou[2]):
+            col.violation(key + " :: affine invariance", dict(detail, unit_x=[fl(v) for v in xu], unit_kwargs=ku,
+                                                             got=M.tolist(), unit_result=ou[2].tolist() if ou[0] == "OK" else ou[1]),
+                          sig="cubic-affine-invariance")
 
 
 # ---------------------------------------------------------------------------
@@ -827,6 +929,135 @@ def drv_formula(c, ctx, col):
 
 
 # ---------------------------------------------------------------------------
+# input container / dtype: the result must not depend on how the same numbers are stored (differential)
+
+CONTAINER_TERMS = [
+    ("bs", {"degree": 0, "knots": [2.0]}), ("bs", {"degree": 1, "df": 3}), ("bs", {"degree": 3, "knots": [2.0]}),
+    ("bs", {"degree": 2, "df": 4, "include_intercept": True}),
+    ("cr", {"df": 3}), ("cr", {"knots": [2.0], "constraints": "center"}),
+    ("cc", {"df": 3}), ("cc", {"knots": [2.0]}), ("cc", {"df": 3, "constraints": "center"}),
+]
+CONTAINERS = ["float32", "int64", "int32", "list", "series", "series-index", "series-int64-index"]
+SYM_INT = [F(v) for v in (-1, 0, 1, 2, 3, 4, 5)] + [None]
+INT_FOLLOW = [F(v) for v in (-1, 0, 1, 2, 3, 4, 5)]
+
+
+def make_container(kind, vals):
+    """the values stored as the given container, or None when it cannot hold them (nulls / fractions in an int array)"""
+    import pandas as pd
+
+    integral = all(v is not None and v.denominator == 1 for v in vals)
+    floats = [fl(v) for v in vals]
+    if kind == "float64":
+        return np.array(floats, dtype=np.float64)
+    if kind == "float32":
+        return np.array(floats, dtype=np.float32)
+    if kind in ("int64", "int32"):
+        return np.array([int(v) for v in vals], dtype=kind) if integral else None
+    if kind == "list":
+        return [int(v) for v in vals] if integral else floats
+    if kind == "series":
+        return pd.Series(floats)
+    if kind == "series-index":
+        return pd.Series(floats, index=list(range(10 + len(vals), 10, -1)))
+    if kind == "series-int64-index":
+        return pd.Series([int(v) for v in vals], dtype="int64", index=list(range(10 + len(vals), 10, -1))) if integral else None
+    raise AssertionError(kind)
+
+
+def call_raw(fn, data, n, state, kwargs):
+    try:
+        with np.errstate(all="ignore"):
+            res = fn(data, _state=state, **kwargs)
+    except ValueError as e:
+        return ("ValueError", str(e))
+    except Exception as e:  # noqa
+        return ("ESCAPE", "%s: %s" % (type(e).__name__, str(e)[:120]))
+    try:
+        keys, M = to_matrix(res, n)
+    except Exception as e:  # noqa
+        return ("ESCAPE", "malformed result: %s: %s" % (type(e).__name__, str(e)[:120]))
+    return ("OK", keys, M)
+
+
+def states_close(a, b, tol):
+    if set(a) != set(b):
+        return False
+    for k in a:
+        va, vb = a[k], b[k]
+        if va is None or vb is None or isinstance(va, (bool, str)):
+            if va is not vb and va != vb:
+                return False
+        else:
+            A, B = np.atleast_1d(np.asarray(va, dtype=float)), np.atleast_1d(np.asarray(vb, dtype=float))
+            if A.shape != B.shape or not np.all(np.abs(A - B) <= tol * np.maximum(1.0, np.abs(B))):
+                return False
+    return True
+
+
+def drv_container(c, ctx, col):
+    alias, kw = c.pick(CONTAINER_TERMS)
+    extrap = c.pick(EXTRAP)
+    bmode, max_len, *opt = c.pick(ctx["bounds"])  # "default" | ("both", lo, hi) with fractional bounds
+    x = choose_multiset(c, SYM_INT, max_len)
+    vals = [v for v in x if v is not None]
+    if not vals:
+        raise Skip()
+    lb = F(bmode[1]) if bmode != "default" else min(vals)
+    ub = F(bmode[2]) if bmode != "default" else max(vals)
+    if len(set(v for v in vals if lb <= v <= ub)) < 2:
+        raise Skip()
+    oor = [v for v in vals if not (lb <= v <= ub)]
+    if opt and len(x) == max_len and not oor:
+        raise Skip()
+    kwargs = dict(kw, extrapolation=extrap)
+    if bmode != "default":
+        kwargs["lower_bound"], kwargs["upper_bound"] = float(lb), float(ub)
+    fn = TRANSFORMS[alias]
+    kw_src = ", ".join("%s=%r" % kv for kv in kwargs.items())
+    key0 = "container :: %s(x, %s) x=%s" % (alias, kw_src, showx(x))
+    col.sample({"term": "%s(x, %s)" % (alias, kw_src), "x": showx(x), "containers": CONTAINERS})
+    x2 = [v for v in INT_FOLLOW if extrap != "raise" or lb <= v <= ub]
+
+    st0 = {}
+    base = call_raw(fn, make_container("float64", x), len(x), st0, kwargs)
+    base2 = call_raw(fn, make_container("float64", x2), len(x2), copy.deepcopy(st0), kwargs) if base[0] == "OK" else None
+    col.interesting()
+    for kind in CONTAINERS:
+        data = make_container(kind, x)
+        if data is None:
+            col.count("container-cannot-hold-the-values")
+            continue
+        tol = 1e-5 if kind == "float32" else TOL
+        key = "%s container=%s" % (key0, kind)
+        detail = {"x": [fl(v) for v in x], "container": kind, "kwargs": dict(kwargs),
+                  "repro": "same call with x stored as %s versus numpy float64" % kind}
+        st = {}
+        got = call_raw(fn, data, len(x), st, kwargs)
+        if got[0] == "ESCAPE" or got[0] != base[0]:
+            col.violation(key + " :: train outcome", dict(detail, float64=base[:2] if base[0] != "OK" else "OK",
+                                                          container=got[:2] if got[0] != "OK" else "OK"),
+                          sig="container-changes-outcome")
+            continue
+        if got[0] != "OK":
+            col.count("both-reject")
+            continue
+        if list(got[1]) != list(base[1]) or not mats_close(got[2], base[2], tol):
+            col.violation(key + " :: train values", dict(detail, float64=base[2].tolist(), container=got[2].tolist()),
+                          sig="container-changes-values")
+            continue
+        if not states_close(st, st0, tol):
+            col.violation(key + " :: state", dict(detail, float64=repr(st0), container=repr(st)), sig="container-changes-state")
+            continue
+        got2 = call_raw(fn, make_container(kind, x2), len(x2), st, kwargs)
+        if got2[0] != base2[0] or (got2[0] == "OK" and (list(got2[1]) != list(base2[1]) or not mats_close(got2[2], base2[2], tol))):
+            col.violation(key + " :: reuse values", dict(detail, x2=[fl(v) for v in x2],
+                                                         float64=base2[2].tolist() if base2[0] == "OK" else base2[:2],
+                                                         container=got2[2].tolist() if got2[0] == "OK" else got2[:2]),
+                          sig="container-changes-values")
+
+
+# ---------------------------------------------------------------------------
 
 def selftest():
     R.selftest()
@@ -892,6 +1123,37 @@ def subchecks(tier, seed):
                             "follow-up vectors (state re-use)": "the recorded knots followed by the k/8 grid (explicit knots) "
                                                                 "or 13 dyadic points (df) in -1..5 plus a null"}))
     subs.sort(key=lambda sub: ("degree0" in sub.name, not sub.name.startswith("cubic")))  # rarer defect classes first
+
+    # ---- affinely transformed grids o + h*G (scale / offset of the data) and input containers ----------------------
+    pairs = [AFFINE_PAIRS[i] for i in (0, 3, 5, 6)] if quick else AFFINE_PAIRS
+    ptxt = ["%r + %r * g" % (float(o), float(h)) for o, h in pairs]
+    adeg = [1, 3] if quick else degs
+    a_df = [("default", 2), (both, 2)] if quick else [("default", 3), (both, 2)]
+    a_kn = [("default", 2), (both, 2)]
+    a_cu = [("default", 2)] if quick else [("default", 3), (both, 2)]
+    extra = [
+        Sub("bs-df-affine", drv_bs, {"mode": "df", "degrees": adeg, "bounds": a_df, "followup": COARSE, "affine": pairs},
+            shard_depth=4,
+            bounds={"grid": ptxt, "x and bounds": [repr(b) for b in a_df], "degree": adeg, "df": "degree..degree+3",
+                    "checks": "exact reference on the recorded (transformed) knots + equality with the unit-scale call"}),
+        Sub("cubic-affine", drv_cubic, {"kinds": ["cr", "cc"], "constraints": [None, "center"], "bounds": a_cu,
+                                        "dfs": [3] if quick else [3, 4], "followup": COARSE, "followup_df": COARSE, "affine": pairs},
+            shard_depth=4,
+            bounds={"grid": ptxt, "x and bounds": [repr(b) for b in a_cu], "df": "3" if quick else "3..4",
+                    "knots": "every subset of <= 2 interior grid points", "constraints": "None | 'center'"}),
+        Sub("container", drv_container,
+            {"bounds": [("default", 2), (narrow, 3, "oor")] if quick else [("default", 3), (narrow, 3), (both, 3, "oor")]},
+            shard_depth=2,
+            bounds={"terms": ["%s(x, %s)" % (a, ", ".join("%s=%r" % kv for kv in k.items())) for a, k in CONTAINER_TERMS],
+                    "containers": CONTAINERS, "x": "sorted multisets of integers -1..5 and null", "extrapolation": EXTRAP,
+                    "bounds": "from the data | explicit fractional bounds 1/2..3" + ("" if quick else " | 0..4"),
+                    "follow-up": "the integers -1..5 with the recorded state"}),
+    ]
+    if not quick:
+        extra.insert(1, Sub("bs-knots-affine", drv_bs, {"mode": "knots", "degrees": adeg, "bounds": a_kn, "followup": FINE,
+                                                        "affine": pairs},
+                            shard_depth=4, bounds={"grid": ptxt, "x and bounds": [repr(b) for b in a_kn], "degree": adeg}))
+    subs = subs + extra
     return subs + ([
 
         Sub("bs-df-seed-slice", drv_bs, {"mode": "df", "degrees": [degs[seed % 6]], "bounds": [(narrow, 3), (both, 3)],
